@@ -22,8 +22,10 @@ def build_pools(ck, tier, rnd, langs=gen.LANGS):
             ts = corp
         else:
             ts = gen.WORDS["titles"][lang]
+        # the special shapes make up roughly a quarter of every pool
+        ts = list(ts) + gen.SPECIAL_TITLES * max(1, round(len(ts) / (3.0 * len(gen.SPECIAL_TITLES))))
         pools[lang] = list(ts)
-        pairs += [(lang, t) for t in ts]
+        pairs += [(lang, t) for t in sorted(set(ts))]
         pairs += [(lang, t) for t in gen.ADVERSARIAL]
         # single words as titles (exact-prefix clause)
     d = os.path.join(OUT, "work", "pre")
